@@ -261,7 +261,7 @@ func c46ResolvePart(t *testing.T) {
 	knownOpen := vh.OpenFinding("C46", c46FindText)
 	knownHits := 0
 	var firstKnown string
-	vh.Check(t, "resolve", 1500, 12000, func(rt *rapid.T) {
+	vh.Check(t, "resolve", 1500, 8000, func(rt *rapid.T) {
 		seed := c46GenName(rt, "seed", 4)
 		pats := c46GenPats(rt, 1, 6, 5, []string{seed})
 		nontrivial := false
@@ -595,7 +595,7 @@ func c46StagingPart(t *testing.T) {
 	admin := srv.Session(t, "admin", "")
 	known := map[string]int{}
 	example := map[string]string{}
-	vh.Check(t, "staging", 600, 1800, func(rt *rapid.T) {
+	vh.Check(t, "staging", 600, 1200, func(rt *rapid.T) {
 		c46StagingCase(rt, srv, admin, rec, known, example)
 	})
 	ids := make([]string, 0, len(known))
